@@ -49,16 +49,20 @@ def run(chk, repo, tier):
         chk.ob('C13-a', 'T-operator', f'{SPEC}.{dunder}', f'delegates to {meth}(other)', ok, '', fd.loc())
         fm = cls.find_method(meth)
         _, paths, _ = analyse(repo, fm)
-        ok, det = False, ''
-        for p in returns(paths):
+        ok, det = bool(returns(paths)), ''
+        for p in returns(paths):           # every path: no shortcut around the ufunc (the result is always a new Spectrum)
             cs = p.calls(f'{SPEC}._ufunc')
+            good = False
             if len(cs) == 1:
                 u = cs[0].bound.get('ufunc')
                 b = cs[0].bound
-                ok = u == Const(('ext', ufunc)) and b.get('other') == S('other') and b.get('sampling') == S('sampling') \
+                good = u == Const(('ext', ufunc)) and b.get('other') == S('other') and b.get('sampling') == S('sampling') \
                     and b.get('method') == S('method') and b.get('fill_value') == S('fill_value') and p.ret == cs[0].result
-                det = f'ufunc = {u!r}'
-        chk.ob('C13-a', 'T-operator', f'{SPEC}.{meth}', f'applies {ufunc}', ok, det, fm.loc())
+                det = det or ('' if good else f'ufunc = {u!r}')
+            else:
+                det = f'a path returns {fmt(p.ret)[:80]} without applying the ufunc [{conds_str(p)[-80:]}]'
+            ok = ok and good
+        chk.ob('C13-a', 'T-operator', f'{SPEC}.{meth}', f'applies {ufunc} on every path', ok, det, fm.loc())
 
     # ---------------------------------------------------------------- C13-b
     eff = Effects(repo)
@@ -117,7 +121,25 @@ def run(chk, repo, tier):
     new_ok = bool(rets)
     keep_ok = False
     two_ok, two_seen = True, False
+
+    def other_is_spectrum(p):
+        from ..rules import literals
+        for c, pol in literals(p.conds):
+            a = c.single_atom() if isinstance(c, Poly) else None
+            if a is not None and is_app(a, 'isinstance') and a[2] and a[2][0] == S('other') and pol:
+                tgt = a[2][1] if len(a[2]) > 1 else None
+
+                def unwrap(x):
+                    xa = x.single_atom() if isinstance(x, Poly) else None
+                    return xa[1] if xa is not None and xa[0] == 'val' else x
+                tgt = unwrap(tgt)
+                items = [unwrap(i) for i in (tgt.items if isinstance(tgt, Tup) else [tgt])]
+                if any(isinstance(i, Const) and getattr(i.value, 'key', None) == SPEC for i in items):
+                    return True
+        return False
     for p in rets:
+        if other_is_spectrum(p) and not p.calls('radiometry._interp_common'):
+            two_ok = False      # two spectra combined without bringing them onto a common grid
         ctor = [e for e in p.events if e.kind == 'call' and e.data.get('new') == SPEC and e.depth == 0]
         new_ok = new_ok and len(ctor) == 1 and p.ret == ctor[0].data['result']
         if ctor:
